@@ -268,6 +268,36 @@ def execute(prop, pid, binpath, ops_path, workdir, tag, timeout=3600):
     if not os.path.exists(real_path):
         open(real_path, "w").close()
     cases, t3, notes = parse_run_output(real_path)
+    # a harness watchdog that had to end the process (endless loop in the code under test) leaves its verdict in
+    # <out>.watchdog as `#T3 prop=… case=@<number of input lines consumed> …`; the case is recovered from the input
+    wd = real_path + ".watchdog"
+    if os.path.exists(wd):
+        in_cases, cur = [], None
+        with open(ops_path, errors="replace") as f:
+            for ln, line in enumerate(f, 1):
+                line = line.rstrip("\n")
+                if not line.strip():
+                    continue
+                if line.startswith("case") or cur is None:
+                    cur = {"name": (line.split() + ["?", "?"])[1], "ops": [], "real": [], "first": ln, "last": ln}
+                    in_cases.append(cur)
+                cur["ops"].append(line)
+                cur["real"].append("<not reached>")
+                cur["last"] = ln
+        for line in open(wd, errors="replace"):
+            m = re.match(r"#T3 prop=(\S+) case=@(\d+) ?(.*)", line.rstrip("\n"))
+            if not m:
+                continue
+            n = int(m.group(2))
+            hit = next((c for c in in_cases if c["first"] <= n <= c["last"]), in_cases[-1] if in_cases else None)
+            if hit is None:
+                continue
+            if not cases or cases[-1]["name"] != hit["name"] or len(cases[-1]["ops"]) != len(hit["ops"]):
+                if cases and cases[-1]["name"] == hit["name"]:
+                    cases.pop()   # partially observed
+                cases.append({"name": hit["name"], "ops": hit["ops"], "real": hit["real"]})
+            t3.append({"prop": m.group(1), "case": hit["name"], "msg": m.group(3), "case_index": len(cases) - 1})
+        os.remove(wd)
     res["cases"], res["notes"] = cases, notes
     res["t3"] = [x for x in t3 if x["prop"] == pid]
     res["t3_other"] = [x for x in t3 if x["prop"] != pid]
@@ -498,7 +528,9 @@ def main():
                 continue
             sig = re.sub(r"[0-9a-f]{4,}|\d+", "#", ts[0]["msg"])[:60]
             pred = lambda r: any(re.sub(r"[0-9a-f]{4,}|\d+", "#", x["msg"])[:60] == sig for x in r["t3"])
-            small, runs = shrink(prop, pid, binpath, case, workdir, pred)
+            # each run of a case on which the code under test never returns costs a watchdog period
+            slow = "made no progress" in ts[0]["msg"]
+            small, runs = shrink(prop, pid, binpath, case, workdir, pred, budget=8 if slow else 150)
             key = replay_key(small)
             if key in seen_keys:
                 continue
